@@ -133,7 +133,9 @@ def run(ctx):
     check_acquire_inside(ctx, repo, "stage_wrapper", "stage_all", "unstage_all", "devices", reversed_release=True)
     f = repo.func(PP, "stage_wrapper")
     ok = any(isinstance(s, ast.Assign) and A.norm(s.targets[0]) == "devices" and "separate_devices(" in A.norm(s.value) and "root_ancestor(" in A.norm(s.value) for s in f.node.body)
-    ctx.ob("C23.D2-reverse-order", cname(f, None, "devices de-duplicated by root ancestor once, before staging"), ok, "" if ok else "a device and its parent would both be staged", where=where(f, f.node))
+    ctx.ob("C23.D2-reverse-order", cname(f, None, "devices de-duplicated by root ancestor once, before staging"), ok, "" if ok else "the device list is not reduced to distinct root ancestors ONCE, in one list shared by stage and unstage: either a device and its parent are both "
+           "staged, or stage and unstage de-duplicate separately (first occurrences of the list vs of the reversed list differ) and the unstage order is not the reverse "
+           "of the stage order", where=where(f, f.node))
     # subs_wrapper
     check_acquire_inside(ctx, repo, "subs_wrapper", "subscribe", "unsubscribe", "", rule="C23.D1-release-is-final-plan")
     f = repo.func(PP, "subs_wrapper")
